@@ -277,6 +277,10 @@ def handleLine (toks : List String) : String :=
   -- a connection blocked in a write is its own goroutine's business: every other connection is served
   -- (`connStep_static`, `C08_per_connection`); blocking itself is runtime behaviour outside the model
   | "stallw" :: _ => "witness-served"
+  | "massdisc" :: _ => "witness-served"
+  -- a reply is one write of one complete frame (`C04_every_write_is_a_frame`); how long the transport takes to
+  -- deliver it is not the loop's business
+  | "stallr" :: _ => "replies-complete"
   | "linhist" :: ts =>
     let ops : List (Lin.Op Bytes Bytes) := ts.filterMap fun t =>
       match t.splitOn ":" with
@@ -292,6 +296,8 @@ def handleLine (toks : List String) : String :=
     packBits (ks.map fun k => globMatch pat (unhex k))
   | "chunks" :: ts => streamOutcome ((afterBar ts).map unhex) 1048576
   | "hostile" :: hs => streamOutcome (hs.map unhex) 1048576
+  -- `deep <depth> <tail>`: `*1\r\n` nested <depth> times, then <tail> (compact form of a hostile stream near the 1 MiB bound)
+  | ["deep", d, t] => streamOutcome [(List.replicate d.toNat! b!"*1\r\n").flatten ++ unhex t] 1048576
   | ["ctor", "int", n] =>
     match n.toInt? with
     | some i =>
